@@ -12,7 +12,8 @@
    precedence parser regroups the tokens into exactly that tree.
    Nothing but statements lives in this file. *)
 From Coq Require Import ZArith List Bool String.
-From VV Require Import Base.F64 Mep.Genome Lang.LangBase Gen.Templates Lang.LangDefs Lang.LangProofs
+From VV Require Import Base.F64 Base.Values Interp.Strategy Cxx.CxxMini Gen.Prims Mep.Genome Prims.RealDefs Interp.MachineDefs.
+From VV Require Import Lang.LangBase Gen.Templates Lang.LangDefs Lang.LangProofs
   Lang.SynDefs Lang.SynProofs Lang.ParseProofs Lang.ReadProofs Lang.TableChecks Lang.CDenote Lang.Witness Lang.CDenoteExample.
 Import ListNotations.
 Local Open Scope Z_scope.
@@ -102,33 +103,53 @@ Theorem C19_language_strip_preserves_expression : forall f env t,
 Proof. exact language_reads_all_trees. Qed.
 Print Assumptions C19_language_strip_preserves_expression.
 
-(* 7. What the C text computes -- PARTIAL.
-   [denote lit rho h e] is the value of the C expression e over binary64: the C
-   operators + - * / < > <= >= && ?: unary - (double) and the libm functions
-   fabs sqrt floor fmod fmax fmin are the IEEE operations of Base/F64.v (exact:
-   no oracle is needed for them); [lit] is strtod on numeric literals, [rho]
-   binds the parameters of the C function.  [eval_frag] is the value the
-   interpreter yields for programs over FADD FSUB FMUL FDIV FMOD FMAX FIDIV FABS
-   FSQRT FIFL FIFE FIFZ (real.h: strict in the combined / compared arguments,
-   undefined when the result is not finite, lazy in the branches).
-   Proved, for ALL programs of that fragment (the templates are those of the
-   regenerated table): whenever the program yields a value and every leaf is
-   exact (reading its printed text back gives its value: "constants print
-   exactly", variables are bound parameters), the C text denotes that value.
-   The denotation distinguishes the int of an integer literal from a double (usual
-   arithmetic conversions: 7/2 is 3, 2*DBL_EPSILON is a double), so a leaf printed
-   as an integer literal is NOT exact: "constants print exactly AND as floating
-   literals" is what the hypothesis says.  Hypothesis: exact leaves.
-   Not proved (gap covered by the execution leg: the compiled C text is run
-   against the real src_interpreter on every run): that [eval_frag] is C01's
-   [den] over the regenerated primitive bodies (C13's closed forms add_run ...
-   say so primitive by primitive); the other primitives (FSIN FCOS FLN FSIGMOID
-   AQ need libm oracles; FIFB, > <, FLENGTH, SIFE); strings. *)
-Theorem C19_c_denotes_partial : forall lit rho env t,
-  frag lit rho env t ->
-  forall r, eval_frag rho env t = Some r -> denote lit rho no_holes (ast env FC t) = Some (CD r).
-Proof. exact c_denotes_frag. Qed.
+(* 7. What the C text computes.
+   [denote lm c_pow lit rho h e] is the value of the C expression e: doubles are
+   binary64 (the operators + - * / < > <= >= unary - (double) and fabs sqrt floor
+   fmod fmax fmin are the exact IEEE operations of Base/F64.v), integer literals
+   are ints with the usual arithmetic conversions (7/2 is 3), && and ?: are lazy,
+   string literals are their characters and strlen their length; sin cos log exp
+   are the libm oracle [lm] -- the SAME oracle the interpreter's primitives use --,
+   [c_pow] is pow, [lit] strtod on floating literals, [rho] the parameters.
+   [den vars t] is C01's denotation of the program (Interp/MachineDefs.v), in which
+   every symbol behaves as its REGENERATED body says (strategy_of lm body,
+   Gen/Prims.v under the C++ semantics of Cxx/CxxMini.v); C13's closed forms of the
+   bodies (Prims/RealProofs.v) are used in the proof, no hand-written reference
+   semantics stands in between.
+   For ALL programs over FADD FSUB FMUL FDIV FMOD FMAX FIDIV FABS FSQRT FSIN FCOS
+   FLN AQ > < FLENGTH FIFL FIFE FIFZ FIFB whose leaves are exact (reading the
+   printed text of a leaf back gives the interpreter's value of it: constants print
+   exactly and as floating literals, variables are bound parameters, string
+   constants are plain literals): whenever the interpreter yields a double, the C
+   text denotes that double.
+   Hypotheses (AQ only): strtod("1.0") = 1, strtod("2.0") = 2, pow(y, 2.0) = y * y.
+   FIFB: the three compared values are not NaN (the template uses <= where the
+   interpreter uses !isless / !isgreater).
+   PARTIAL -- outside: FSIGMOID (the template is 1/(1+exp(-x)) for every x while the
+   interpreter evaluates exp(x)/(1+exp(x)) for x < 0: equal reals, different
+   roundings -- the execution leg compares with a relative tolerance), SIFE (known
+   finding: pointer comparison), the boolean and integer primitives. *)
+Theorem C19_c_denotes_partial : forall lm c_pow lit rho vars env,
+  lit [49; 46; 48] = Some RealDefs.one ->
+  lit [50; 46; 48] = Some (F64.of_bits 4611686018427387904) ->
+  (forall y, c_pow y (F64.of_bits 4611686018427387904) = F64.mul y y) ->
+  forall t r, frag lm c_pow lit rho vars env t ->
+  den vars t = Val (VDouble r) ->
+  denote lm c_pow lit rho no_holes (ast env FC t) = Some (CD r).
+Proof. exact c_denotes_double. Qed.
 Print Assumptions C19_c_denotes_partial.
+
+(* the same for every kind of value: a comparison primitive yields the int 0 / 1,
+   a string-valued conditional the characters of a string *)
+Theorem C19_c_denotes_values_partial : forall lm c_pow lit rho vars env,
+  lit [49; 46; 48] = Some RealDefs.one ->
+  lit [50; 46; 48] = Some (F64.of_bits 4611686018427387904) ->
+  (forall y, c_pow y (F64.of_bits 4611686018427387904) = F64.mul y y) ->
+  forall t, frag lm c_pow lit rho vars env t ->
+  forall v, den vars t = Val v -> v <> VVoid ->
+  exists c, denote lm c_pow lit rho no_holes (ast env FC t) = Some c /\ crel v c.
+Proof. exact c_denotes_den. Qed.
+Print Assumptions C19_c_denotes_values_partial.
 
 (* ---- non-vacuity: the hypotheses hold of real programs, the model computes,
    and on them the full chain text -> tokens -> tree closes by computation *)
@@ -164,15 +185,15 @@ Proof. vm_compute. reflexivity. Qed.
 Example placeholder_terminal_is_excluded : good_tree env0 FC t_placeholder_name = false.
 Proof. vm_compute. reflexivity. Qed.
 
-(* the hypotheses of theorem 7 hold of a real program (with a strtod that knows its
-   literals and the parameter X1 = 1.5); by the theorem its C text
+(* the hypotheses of theorem 7 hold of a real program whose symbols carry the
+   regenerated bodies (input X1 = 1.5); by the theorem its C text
    X1<3.500000 ? (X1/sqrt(3.500000)) : fabs(X1)  denotes the interpreter's value *)
 Example c_denotes_hypotheses :
-  frag lit0 rho0 env1 t_exec /\
+  frag lm0 pow0 lit0 rho0 vars0 env1 t_exec /\
   language_tree env1 FC t_exec = Some (bz "X1<3.500000 ? (X1/sqrt(3.500000)) : fabs(X1)").
 Proof. split; [exact frag_example|]. vm_compute. reflexivity. Qed.
 
 (* a real constant printed as an integer literal denotes an int: 7/2 is 3 *)
 Example integer_literals_are_ints :
-  denote lit0 rho0 no_holes (EBin (p1 47) (EAtom (bz "7")) (EAtom (bz "2"))) = Some (CI 3).
+  denote lm0 pow0 lit0 rho0 no_holes (EBin (p1 47) (EAtom (bz "7")) (EAtom (bz "2"))) = Some (CI 3).
 Proof. vm_compute. reflexivity. Qed.
